@@ -4,6 +4,7 @@ package document
 import (
 	"encoding/xml"
 	"fmt"
+	"reflect"
 	"strings"
 )
 
@@ -785,45 +786,61 @@ func (t *Table) ClearTable() {
 
 // CopyTable 复制表格
 func (t *Table) CopyTable() *Table {
-	// 深拷贝表格结构
-	newTable := &Table{
-		Properties: t.Properties,
-		Grid:       t.Grid,
-		Rows:       make([]TableRow, len(t.Rows)),
-	}
-
-	// 复制所有行和单元格
-	for i, row := range t.Rows {
-		newTable.Rows[i] = TableRow{
-			Properties: row.Properties,
-			Cells:      make([]TableCell, len(row.Cells)),
-		}
-
-		for j, cell := range row.Cells {
-			newTable.Rows[i].Cells[j] = TableCell{
-				Properties: cell.Properties,
-				Paragraphs: make([]Paragraph, len(cell.Paragraphs)),
-			}
-
-			// 复制段落内容
-			for k, para := range cell.Paragraphs {
-				newTable.Rows[i].Cells[j].Paragraphs[k] = Paragraph{
-					Properties: para.Properties,
-					Runs:       make([]Run, len(para.Runs)),
-				}
-
-				for l, run := range para.Runs {
-					newTable.Rows[i].Cells[j].Paragraphs[k].Runs[l] = Run{
-						Properties: run.Properties,
-						Text:       Text{Content: run.Text.Content},
-					}
-				}
-			}
-		}
-	}
+	// 深拷贝整个表格：属性、网格、行、单元格（含嵌套表格、图片、分页符等）
+	// 都必须是独立的副本，否则修改副本会影响原表格
+	newTable := deepCopyValue(reflect.ValueOf(t)).Interface().(*Table)
 
 	Info("表格复制成功")
 	return newTable
+}
+
+// deepCopyValue 递归复制一个值，指针、切片、映射指向的内容都会被复制
+func deepCopyValue(v reflect.Value) reflect.Value {
+	switch v.Kind() {
+	case reflect.Ptr:
+		if v.IsNil() {
+			return v
+		}
+		cp := reflect.New(v.Type().Elem())
+		cp.Elem().Set(deepCopyValue(v.Elem()))
+		return cp
+	case reflect.Interface:
+		if v.IsNil() {
+			return v
+		}
+		cp := reflect.New(v.Type()).Elem()
+		cp.Set(deepCopyValue(v.Elem()))
+		return cp
+	case reflect.Struct:
+		cp := reflect.New(v.Type()).Elem()
+		cp.Set(v)
+		for i := 0; i < v.NumField(); i++ {
+			if cp.Field(i).CanSet() {
+				cp.Field(i).Set(deepCopyValue(v.Field(i)))
+			}
+		}
+		return cp
+	case reflect.Slice:
+		if v.IsNil() {
+			return v
+		}
+		cp := reflect.MakeSlice(v.Type(), v.Len(), v.Len())
+		for i := 0; i < v.Len(); i++ {
+			cp.Index(i).Set(deepCopyValue(v.Index(i)))
+		}
+		return cp
+	case reflect.Map:
+		if v.IsNil() {
+			return v
+		}
+		cp := reflect.MakeMapWithSize(v.Type(), v.Len())
+		for _, key := range v.MapKeys() {
+			cp.SetMapIndex(key, deepCopyValue(v.MapIndex(key)))
+		}
+		return cp
+	default:
+		return v
+	}
 }
 
 // CellAlignment 单元格对齐方式
